@@ -697,6 +697,7 @@ def direct_local_closures(raw):
     to anything (an iterator adaptor, a callback parameter) is not touched."""
     by_id = {b["id"]: b for b in raw["bodies"]}
     out = set()
+    dumps = {}
     for P in raw["bodies"]:
         made = {}
         for blk in P["blocks"]:
@@ -760,9 +761,13 @@ def direct_local_closures(raw):
                     ok = False
             # nobody else knows the closure
             for B in raw["bodies"]:
+                if not ok:
+                    break
                 if B is P or B["id"] == cid:
                     continue
-                if cid in json.dumps(B["blocks"]):
+                if B["id"] not in dumps:
+                    dumps[B["id"]] = json.dumps(B["blocks"])
+                if cid in dumps[B["id"]]:
                     ok = False
             if not ok or not sites:
                 continue
